@@ -50,6 +50,11 @@ def items : Schema → Option Schema | .mk _ _ _ i => i
 def any : Schema := .mk {} [] none none
 end Schema
 
+/-- the subschema declared for property `k` (first declaration) -/
+def lookupP (k : String) : Props → Option Schema
+  | [] => none
+  | (k', s) :: t => if k' = k then some s else lookupP k t
+
 def propsHasKey (k : String) : Props → Bool
   | [] => false
   | (k', _) :: t => k' = k || propsHasKey k t
